@@ -30,6 +30,7 @@ def dispatch (line : String) : String :=
       | "attempt.run" => handleAttemptRun args
       | "mon.c09" => handleMonC09 args
       | "sched.run" => handleSchedRun args
+      | "sched.mon" => handleSchedRun args
       | "outline.expand" => handleOutlineExpand args
       | "norm.run" => handleNormRun args
       | "mon.c11" => handleMonC11 args
